@@ -70,7 +70,7 @@ def simpson(u):
     let ghost L0 = left_i@; let ghost S0 = step_i@; let ghost A0 = f_ai@; let ghost C0 = f_ci@; let ghost B0 = f_bi@; let ghost U0 = sum_i@; let ghost T0 = tol_i@; let ghost V0 = l_i@;
     proof {{ assert(entry_ok({STK}, i0 - 1)); }}""")
     # accept
-    f.hint("after: area += s1 + s2", """proof {
+    f.hint("after: area +=", """proof {
         let p = Panel { a: v_1@, h: v_5@, t: v_6@ };
         let acc2 = acc.push(p);
         assert(acc2.drop_last() =~= acc);
@@ -110,9 +110,118 @@ def simpson(u):
     return f
 
 
+GAUSS_SPEC = r"""
+pub uninterp spec fn F(t: real) -> real;
+// one table entry as the symmetric integrators consume it: centre node once, other nodes mirrored
+pub open spec fn term_sym(p: (R, R)) -> real { if p.0@ == 0real { p.1@ * F(0real) } else { p.1@ * (F(p.0@) + F(-p.0@)) } }
+pub open spec fn term_one(p: (R, R)) -> real { p.1@ * F(p.0@) }
+pub open spec fn row_sum(row: Seq<(R, R)>, n: int, sym: bool) -> real
+    decreases n
+{ if n <= 0 { 0real } else { row_sum(row, n - 1, sym) + if sym { term_sym(row[n - 1]) } else { term_one(row[n - 1]) } } }
+// the k-th rule of a table applied to F  (rule(-1) = 0: the initial `prev_area`)
+pub open spec fn rule(t: Seq<Vec<(R, R)>>, k: int, sym: bool) -> real { if 0 <= k < t.len() { row_sum(t[k]@, t[k]@.len() as int, sym) } else { 0real } }
+// the stopping rule: rule k is returned iff it and its predecessor both moved by less than tol
+pub open spec fn accepted(t: Seq<Vec<(R, R)>>, k: int, sym: bool, tol: real, v: real) -> bool {
+    1 <= k < t.len() && v == rule(t, k, sym) && rabs(rule(t, k, sym) - rule(t, k - 1, sym)) < tol && rabs(rule(t, k - 1, sym) - rule(t, k - 2, sym)) < tol
+}
+"""
+
+TABLE_ID = {"WEIGHTS_LEGENDRE": 1, "WEIGHTS_CHEBYSHEV": 2, "WEIGHTS_CHEBYSHEV_SECOND": 3, "WEIGHTS_HERMITE": 4, "WEIGHTS_LAGUERRE": 5}
+
+
+def table_core(u, name, table, sym, tol_check=True, var="weight"):
+    f = u.fn(GFILE, name)
+    tid = TABLE_ID[table]
+    T = f"table_spec({tid})"
+    S = "true" if sym else "false"
+    f.mapfold("mf")
+    f.req("forall|t: R| f_0.requires((t,))", "forall|t: R, y: R| f_0.ensures((t,), y) ==> y@ == F(t@)")
+    ens = [f"res is Ok ==> exists|k: int| #![trigger rule({T}, k, {S})] accepted({T}, k, {S}, tol@, res->Ok_0@)"]
+    if tol_check:
+        ens.insert(0, "tol@ < 0real ==> res is Err")
+    f.ens(*ens)
+    f.loop(1, iter="it", invariant=[
+        "f == f_0",
+        f"prev_area@ == rule({T}, it.index@ - 1, {S})",
+        f"it.index@ == 0 ==> prev_err@ == 1real + tol@",
+        f"it.index@ > 0 ==> prev_err@ == rabs(rule({T}, it.index@ - 1, {S}) - rule({T}, it.index@ - 2, {S}))",
+        f"forall|k: int| 0 <= k < it.history@.len() ==> *it.history@[k] == {T}[k]",
+    ])
+    term = "term_sym(*p)" if sym else "term_one(*p)"
+    f.loop(2, iter="it2", invariant=[
+        f"vx_mfacc@ == row_sum({var}@, it2.index@, {S})",
+        f"forall|k: int| 0 <= k < it2.history@.len() ==> *it2.history@[k] == {var}@[k]",
+        "forall|p: &(R, R)| #[trigger] vx_mfg.requires((p,))",
+        f"forall|p: &(R, R), y: R| #[trigger] vx_mfg.ensures((p,), y) ==> y@ == {term}",
+        "forall|a: R, b: R| #[trigger] vx_mfh.requires((a, b))",
+        "forall|a: R, b: R, y: R| #[trigger] vx_mfh.ensures((a, b), y) ==> y@ == a@ + b@",
+    ])
+    f.closure(1, tuple_param="&(R, R)", ret="vx_y: R", ensures=["vx_y@ == " + ("term_sym(*vx_p1)" if sym else "term_one(*vx_p1)")])
+    f.closure(2, params="sum: R, x: R", ret="vx_s: R", ensures=["vx_s@ == sum@ + x@"])
+    return f
+
+
 def units(ctx):
     u = Unit("C09", "simpson", preludes=("real",))
     u.rlimit = 150
     u.spec(SIMPSON_SPEC)
     simpson(u)
-    return [u]
+    from vx.extract import Config
+    c = Config(extra_subst=[("FnMut", "Fn")])      # R7: callbacks are Fn (pure) where closures capture them
+    c.extra = [(name, f"vx_table({tid}u8)", "R2-table-access") for name, tid in TABLE_ID.items()]
+    g = Unit("C09", "gauss", preludes=("real", "stdx"), cfg=c)
+    g.spec(GAUSS_SPEC)
+    table_core(g, "integrate_hermite", "WEIGHTS_HERMITE", True)
+    table_core(g, "integrate_chebyshev", "WEIGHTS_CHEBYSHEV", True)
+    table_core(g, "integrate_chebyshev_second", "WEIGHTS_CHEBYSHEV_SECOND", True)
+    table_core(g, "integrate_laguerre", "WEIGHTS_LAGUERRE", False)
+    table_core(g, "integrate_gaussian_core", "WEIGHTS_LEGENDRE", True, tol_check=False, var="weights")
+    return [u, g, entry_unit()]
+
+
+def entry_unit():
+    """integrate() and integrate_gaussian(): validation and the affine change of variable handed to the core"""
+    from vx.extract import Config
+    c = Config(extra_subst=[("FnMut", "Fn")])
+    e = Unit("C09", "entry", preludes=("real",), cfg=c)
+    e.spec("""
+pub uninterp spec fn F(t: real) -> real;
+// the cores are verified in unit `gauss` (Gauss-Legendre) / not verified (tanh-sinh, see NOT_DECIDED); here only their signature matters
+#[verifier::external_body]
+fn integrate_gaussian_core<F: Fn(R) -> R>(f: F, tol: R) -> (r: Result<R, String>)
+    requires forall|t: R| f.requires((t,)) { unimplemented!() }
+#[verifier::external_body]
+fn integrate_core<F: Fn(R) -> R>(f: F, tol: R) -> (r: Result<R, String>)
+    requires forall|t: R| f.requires((t,)) { unimplemented!() }
+""")
+    f = e.fn(GFILE, "integrate_gaussian")
+    f.req("forall|t: R| f_0.requires((t,))", "forall|t: R, y: R| f_0.ensures((t,), y) ==> y@ == F(t@)")
+    f.ens("left@ >= right@ ==> res is Err", "tol@ < 0real ==> res is Err")
+    # the callback handed to the core evaluates f at the affine image of [-1, 1]
+    f.closure(1, ret="vx_y: R", ensures=["vx_y@ == F(0.5real * (right@ - left@) * x@ + 0.5real * (right@ + left@))"])
+    f.hint("before: let fun =", "proof { assert(scale@ == 0.5real * (right@ - left@) && shift@ == 0.5real * (right@ + left@)); }")
+    f = e.fn(IFILE, "integrate")
+    f.req("forall|t: R| f_0.requires((t,))", "forall|t: R, y: R| f_0.ensures((t,), y) ==> y@ == F(t@)")
+    f.ens("left@ >= right@ ==> res is Err", "tol@ < 0real ==> res is Err")
+    f.closure(1, ret="vx_y: R", ensures=["vx_y@ == F((right@ - left@) * 0.5real * x@ + (right@ + left@) * 0.5real)"])
+    f.hint("before: let fun =", "proof { assert(scale@ == (right@ - left@) * 0.5real && shift@ == (right@ + left@) * 0.5real); }")
+    return e
+
+
+DECIDED = [
+    "integrate_simpson: Err for left >= right and tol < 0; an Ok result is the sum of two-panel Simpson values over panels that tile [left, right] exactly, each of which passed its own local test |S2 - S1| < tol_i; every stack entry stores the samples and the Simpson value of its own panel (the pinned tree restored the wrong saved estimate: fixed); f is only evaluated inside [left, right]",
+    "integrate_hermite / integrate_chebyshev / integrate_chebyshev_second / integrate_laguerre / integrate_gaussian_core: for every table and callback, an Ok result is rule k of the table (centre node once, other nodes mirrored; Laguerre unmirrored) with |Q_k - Q_{k-1}| < tol and |Q_{k-1} - Q_{k-2}| < tol; tol < 0 -> Err",
+    "integrate_gaussian and integrate: left >= right -> Err (integrate_gaussian: repaired), tol < 0 -> Err; the callback handed to the core evaluates f at the affine image scale*x + shift of the reference interval",
+]
+NOT_DECIDED = [
+    "accuracy against the true integral for non-polynomial integrands (the stopping heuristics are not error bounds); combined with C10 the accepted Gaussian rule is exact on polynomials of degree <= 2k+1",
+    "integrate_core (tanh-sinh level loop and its convergence heuristic) and integrate_fixed (Romberg: 1 << k on the default integer type, powi, clone_from_slice on sub-slices are outside the extractor's rules) -- not under contract; Romberg exactness is exercised only by the witness probe",
+    "termination of integrate_simpson (the level cap n_max bounds the depth; the loop itself is marked exec_allows_no_decreases_clause)",
+    "the multiplication of the core's result by the scale in the entry points is verified only as executed code, not as a statement about the integral",
+]
+ASSUMPTIONS = [
+    "callbacks are pure (FnMut is verified as Fn, rule R7) and modelled by an uninterpreted F",
+    "the quadrature tables are opaque (vx_table); their contents are decided by C10",
+    "rule R5-map-fold: `.iter().map(G).fold(INIT, H)` is verified as the explicit loop it abbreviates",
+    "integrate_simpson: n_max < usize::MAX / 4",
+]
